@@ -15,8 +15,25 @@ from lib.unit import *
 from units import round_common as R
 
 
+def round_tail_pinned(S: Sources):
+    """C08's harnesses stand on the round being what the loop unit pins: every thread of the round calls the recorder with the round's
+    barrier, through ThreadPool::par_extend, and a thread that delivered no sample (it panicked) makes the caller panic before anything else
+    happens. Nothing is proved about that text here; it is PINNED: if it changes, this check is undecided instead of silently green."""
+    import re
+    from lib import rsx
+    from units import loop_common as L
+    b = S(L.BENCH)
+    f = b.find_fn("bench_loop_threaded", impl=r"impl<'a> BenchContext<'a>")
+    tail = L.PIN_ROUND[L.PIN_ROUND.index("let ([start, end], alloc_info) = record_sample("):]
+    if len(re.findall(L.pin(tail), f.body_text())) != 1:
+        raise rsx.LostAnchor(f"{L.BENCH}: bench_loop_threaded: the round (recorder call with the round's barrier, par_extend over the round's threads, "
+                             "panic on the caller when a thread delivered no sample) is not the pinned text any more")
+    return []
+
+
 def build(S: Sources) -> Unit:
     errs = []
+    guarded(lambda: round_tail_pinned(S), errs, [])
     return Unit(property_id="C08", verus=[], kani=R.round_kani(S, errs, "C08"), build_errors=errs,
                 undecided_clauses=[
                     "the cross-thread conclusion itself: it rests on the ASSUMED semantics of std::sync::Barrier and on no interleaving being explored (threads' samples are taken one after the other)",
@@ -25,4 +42,6 @@ def build(S: Sources) -> Unit:
                     "each thread's sample reports only that thread's own allocations: rests on thread_local! (language semantics)",
                     "sample sizes above 1 on two threads, more than two threads",
                 ],
-                assumptions=["std::sync::Barrier::wait returns only after all participants have arrived (ASSUMED; replaced by a logger)"])
+                assumptions=["std::sync::Barrier::wait returns only after all participants have arrived (ASSUMED; replaced by a logger)",
+                             "PINNED, not proved: in bench_loop_threaded every thread of the round calls the recorder with the round's barrier through ThreadPool::par_extend, "
+                             "and a thread that delivered no sample makes the caller panic right after (a change to that text makes this check undecided)"])
